@@ -184,7 +184,8 @@ func ParseBlockInfo(data []byte, blockNumber uint32) *BlockInfo {
 	}
 
 	// Parse page header
-	lsn := u64(data, 0)
+	// pd_lsn is stored as two 32-bit words: xlogid (high half) then xrecoff (low half)
+	lsn := uint64(u32(data, 0))<<32 | uint64(u32(data, 4))
 	info.LSN = FormatLSN(lsn)
 	info.Checksum = u16(data, 8)
 	info.Flags = u16(data, 10)
